@@ -9,7 +9,12 @@
 //	-mode block  (terminfo screen only): no traffic; Sync alone gives the reference block B0 and B alone its own
 //	    blocks; then Sync and B run concurrently and every Write the tty saw must be B0 or one of B's blocks.
 //
-// stdout: one JSON object (iterations, block verdict).  The data-race reports go to the GORACE log.
+//	pair mode ends with a WATCHDOG: once the stop flag is set both method loops must come back (events keep being
+//	posted so that a blocked PollEvent wakes up); a loop that is still inside its call after 4 s is reported as
+//	`stuck` with the tcell frames of the goroutines that are parked (a deadlock between two Screen calls, e.g. a
+//	lock-order inversion between the screen mutex and a second mutex, is invisible to the race detector).
+//
+// stdout: one JSON object (iterations, block verdict, stuck).  The data-race reports go to the GORACE log.
 package main
 
 import (
@@ -19,6 +24,10 @@ import (
 	"flag"
 	"fmt"
 	"os"
+	"regexp"
+	"runtime"
+	"strings"
+	"sync"
 	"sync/atomic"
 	"time"
 
@@ -57,10 +66,12 @@ type env struct {
 	s    tcell.Screen
 	sim  tcell.SimulationScreen
 	tty  *probeTty
+	ti   *terminfo.Terminfo
 	stop int32
 	// quiet pauses the injected key traffic: Fini with keys in flight can strand inputLoop on `keychan <-` once mainLoop
 	// has left (a liveness defect that belongs to property C06, not to this one)
-	quiet int32
+	quiet   int32
+	simFini int32
 }
 
 func (e *env) stopped() bool { return atomic.LoadInt32(&e.stop) != 0 }
@@ -122,6 +133,37 @@ var ops = map[string]op{
 		time.Sleep(200 * time.Microsecond)
 	},
 	"Resume": func(e *env, r *rnd, i int) { _ = e.s.Resume() },
+	// a PRIVATE terminfo screen per iteration: Init (engage) … then Suspend;Resume on one goroutine against Fini on
+	// another — the lifecycle calls of a whole screen life, loops started by Init included
+	"InitFini": func(e *env, r *rnd, i int) {
+		if e.ti == nil {
+			return
+		}
+		// its own copy of the description: the constructor amends the entry it is given (ti.XTermLike, tscreen.go:514), and
+		// constructing two screens at once from one shared entry is not "concurrent use of ONE Screen"
+		ti := *e.ti
+		tty := engines.NewFakeTty(80, 24)
+		s, err := tcell.NewTerminfoScreenFromTtyTerminfo(tty, &ti)
+		if err != nil || s.Init() != nil {
+			return
+		}
+		tty.Inject([]byte("ab\x1b[A"))
+		s.SetContent(1, 1, 'x', nil, tcell.StyleDefault)
+		s.Show()
+		tty.Resize(70+r.n(20), 20+r.n(8))
+		var wg sync.WaitGroup
+		wg.Add(2)
+		go func() { defer wg.Done(); _ = s.Suspend(); _ = s.Resume(); s.Show() }()
+		go func() {
+			defer wg.Done()
+			if i&1 == 0 {
+				time.Sleep(time.Duration(r.n(300)) * time.Microsecond)
+			}
+			s.Fini()
+		}()
+		wg.Wait()
+		s.Fini()
+	},
 	"Beep":   func(e *env, r *rnd, i int) { _ = e.s.Beep() },
 	"SetSize": func(e *env, r *rnd, i int) {
 		e.s.SetSize(60+r.n(30), 20+r.n(10))
@@ -133,6 +175,13 @@ var ops = map[string]op{
 	"GetClipboard": func(e *env, r *rnd, i int) { e.s.GetClipboard() },
 	// Fini can only run once: it is issued after a third of the run, the partner keeps going on the finished screen
 	"Fini": func(e *env, r *rnd, i int) {
+		if i == 0 && e.sim != nil && !atomic.CompareAndSwapInt32(&e.simFini, 0, 1) {
+			// simscreen.Fini is not idempotent (simulation.go:152 closes s.quit again: "close of closed channel" on a second
+			// call, sequentially too — not a concurrency matter); the pair (Fini, Fini) finishes a SimulationScreen once.
+			// tScreen.Fini goes through finiOnce and IS called from both loops.
+			time.Sleep(time.Millisecond)
+			return
+		}
 		if i == 0 {
 			time.Sleep(20 * time.Millisecond)
 			atomic.StoreInt32(&e.quiet, 1)
@@ -170,6 +219,7 @@ func newEnv(screen, cs string) (*env, error) {
 	if err != nil {
 		return nil, err
 	}
+	e.ti = ti
 	e.tty = &probeTty{FakeTty: engines.NewFakeTty(80, 24)}
 	s, err := tcell.NewTerminfoScreenFromTtyTerminfo(e.tty, ti)
 	if err != nil {
@@ -187,13 +237,47 @@ func paint(e *env) {
 	}
 }
 
-func runLoop(e *env, name string, seed uint64, cnt *int64) {
+func runLoop(e *env, name string, seed uint64, cnt *int64, done chan struct{}) {
+	if done != nil {
+		defer close(done)
+	}
 	f := ops[name]
 	r := &rnd{s: seed}
 	for i := 0; !e.stopped(); i++ {
 		f(e, r, i)
 		atomic.AddInt64(cnt, 1)
 	}
+}
+
+var stackFnRe = regexp.MustCompile(`^github\.com/gdamore/tcell/v2\.\(\*(tScreen|baseScreen|simscreen)\)\.([A-Za-z]+)`)
+
+// parkedIn: for every goroutine of the dump that is inside a screen method, "outermost<-…<-innermost [state]"
+func parkedIn(dump string) []string {
+	var out []string
+	for _, g := range strings.Split(dump, "\n\n") {
+		lines := strings.Split(g, "\n")
+		if len(lines) == 0 || !strings.HasPrefix(lines[0], "goroutine ") {
+			continue
+		}
+		state := lines[0]
+		if i := strings.Index(state, "["); i >= 0 {
+			state = strings.TrimSuffix(strings.TrimSpace(state[i:]), ":")
+		}
+		var fns []string
+		for _, l := range lines[1:] {
+			if m := stackFnRe.FindStringSubmatch(l); m != nil {
+				fns = append(fns, m[2])
+			}
+		}
+		if len(fns) == 0 {
+			continue
+		}
+		for a, b := 0, len(fns)-1; a < b; a, b = a+1, b-1 {
+			fns[a], fns[b] = fns[b], fns[a]
+		}
+		out = append(out, strings.Join(fns, ">")+" "+state)
+	}
+	return out
 }
 
 var inputs = [][]byte{
@@ -274,8 +358,8 @@ func main() {
 			fmt.Println(string(j))
 			return
 		}
-		go runLoop(e, "Sync", *seed+1, &ca)
-		go runLoop(e, "<B>", *seed, &cb)
+		go runLoop(e, "Sync", *seed+1, &ca, nil)
+		go runLoop(e, "<B>", *seed, &cb, nil)
 		time.Sleep(dur)
 		atomic.StoreInt32(&e.stop, 1)
 		time.Sleep(20 * time.Millisecond)
@@ -345,10 +429,41 @@ func main() {
 			}
 		}()
 	}
-	go runLoop(e, *a, *seed, &ca)
-	go runLoop(e, *b, *seed+7, &cb)
+	da, db := make(chan struct{}), make(chan struct{})
+	go runLoop(e, *a, *seed, &ca, da)
+	go runLoop(e, *b, *seed+7, &cb, db)
 	time.Sleep(dur)
 	atomic.StoreInt32(&e.stop, 1)
+	// watchdog: both loops must return from the call they are in
+	deadline := time.After(4 * time.Second)
+	tick := time.NewTicker(time.Millisecond)
+	var stuck []string
+wait:
+	for da != nil || db != nil {
+		select {
+		case <-da:
+			da = nil
+		case <-db:
+			db = nil
+		case <-tick.C:
+			_ = e.s.PostEvent(tcell.NewEventInterrupt(nil)) // wakes a PollEvent that is waiting for traffic
+		case <-deadline:
+			if da != nil {
+				stuck = append(stuck, *a)
+			}
+			if db != nil {
+				stuck = append(stuck, *b)
+			}
+			break wait
+		}
+	}
+	tick.Stop()
+	if len(stuck) > 0 {
+		buf := make([]byte, 1<<20)
+		buf = buf[:runtime.Stack(buf, true)]
+		out["stuck"] = stuck
+		out["parked"] = parkedIn(string(buf))
+	}
 	time.Sleep(10 * time.Millisecond)
 	out["iters"] = map[string]int64{"a": atomic.LoadInt64(&ca), "b": atomic.LoadInt64(&cb)}
 	out["events"] = atomic.LoadInt64(&ev)
